@@ -166,8 +166,10 @@ example : ∃ p m, compileFile [] [] [.expr 1 (.ident 1 "x")] = .error (.err p m
 /-! ### well-formedness of the result -/
 
 /-- proved part of the well-formedness of returned bytecode: the main function and every compiled
-    function in the constant pool have at most 256 locals, and each of their instruction streams
-    decodes completely into instructions with known opcodes and full operands -/
+    function in the constant pool have at most 256 locals; each of their instruction streams
+    decodes completely into instructions with known opcodes and full operands; and in each stream
+    the operand of every JUMP / JUMPFALSY / ANDJUMP / ORJUMP and both operands of every SETUPTRY
+    are instruction boundaries of that stream (0 for an absent catch) -/
 theorem compile_wf_partial (builtins : List (String × Nat)) (disabled : List String) (file : List Stmt)
     (hok : okSs file = true) (bc : Bytecode) (h : compileFile builtins disabled file = .ok bc) : WFMain bc := by
   have hg := goodP_compileProg file hok (initState builtins disabled) (inv_initState builtins disabled)
@@ -185,9 +187,11 @@ theorem compile_wf_partial (builtins : List (String × Nat)) (disabled : List St
     instruction boundary of its function and every constant / local / builtin index is in range (shown
     here for the main function; likewise for function constants); and the claim covers scanner,
     parser, optimizer and module import.  Proved: `compile_no_panic` (all of the panic-freedom of the
-    compiler proper), `compile_wf_partial`.  Not proved (checked on real bytecode by the structural
-    scan of stream `compilefuzz`): operand ranges inside the streams; not modelled: scanner /
-    parser / optimizer / imports. -/
+    compiler proper), `compile_wf_partial` (frame sizes, decodable streams, jump / try targets are
+    boundaries, for main and all function constants).  Not proved (checked on real bytecode by the
+    structural scan of stream `compilefuzz`): a jump target is *strictly* inside the stream (the
+    RETURN appended by `Bytecode()`), constant / local / free / builtin indices are in range; not
+    modelled: scanner / parser / optimizer / imports. -/
 def C05_full : Prop :=
   ∀ (builtins : List (String × Nat)) (disabled : List String) (file : List Stmt), okSs file = true →
     match compileFile builtins disabled file with
